@@ -1291,7 +1291,7 @@ fn c18_main(args: &[String]) {
     for (i, s, c, d) in &viols {
         by_class.entry(c.clone()).or_default().push((*i, *s, d.clone()));
     }
-    let dir = scratch.join("min");
+    let dir = scratch.join("p");
     let mut out_viol: Vec<Violation> = Vec::new();
     let mut class_counts: BTreeMap<String, u64> = BTreeMap::new();
     for (class, list) in &by_class {
